@@ -66,6 +66,16 @@ CHECKS["C12"] = dict(
    text="Dates and times alone are enumerated over the full edge product, every February/month length of years 0000-9999 is enumerated, combined kinds are sampled (150k quick / 6M thorough) with 16 offsets and 3 delimiters, plus 200k/10M mutants and 100k/4M generated values: Datetime::from_str and the document grammar must agree on verdict and fields, and printing must yield text both accept and read back identically (also via toml_edit::Value::from and serde).",
    note="compares the two library parsers with each other; the harness' own recogniser is only recorded to say which side is wrong",
    design="4/C12")
+CHECKS["C06"] = dict(
+   technique="tree-first generation built through generated API routes (proptest over choice tapes); print-parse round-trip against the built model under the stable-partition rule; purity (print twice / clone)",
+   text="100k (quick) / 2M (thorough) trees with adversarial keys and leaves are assembled through a generated mix of every construction route of toml_edit and as toml::Table/Value; the printed text must be valid (library and reference), decode to the same tree with the same order (values before tables as a stable partition; empty array of tables = absent) and be a pure function of the structure.",
+   note="Item::None, raw decor setters, set_dotted/implicit/position and non-value items under value containers are excluded preconditions",
+   design="4/C06")
+CHECKS["C16"] = dict(
+   technique="stateful model-based testing: generated call histories interpreted in lock step against a reference ordered map with explicit placeholders / Vec, invariant and return values compared after every call; histories shrink as one value",
+   text="60k (quick) / 1.5M (thorough) histories of up to 40 calls per container kind (Table, InlineTable, dyn TableLike over both, Array, ArrayOfTables, toml::Map in the sorted and the preserve_order build): every return value and the full observable state (len, is_empty, iter, lookups, get_values, printed text) must equal the reference after every call.",
+   note="return values of calls made on a placeholder slot are left open by the property and not compared (counted); toml::Map under preserve_order runs in a second build of the harness",
+   design="4/C16")
 NOT_YET = {}
 
 def main():
@@ -90,7 +100,7 @@ def main():
             na.append({"property_id": i, "reason": NOT_YET.get(i, "check not built yet in this revision of /verif (planned in DESIGN.md section 4); not claimed until it exists")})
     m={
       "version":1,
-      "setup_cmd":"cd /verif/harness && CARGO_NET_OFFLINE=true cargo build --profile chk -p vcheck && CARGO_NET_OFFLINE=true cargo build -p c05worker && CARGO_NET_OFFLINE=true cargo build --release -p c05worker",
+      "setup_cmd":"cd /verif/harness && CARGO_NET_OFFLINE=true cargo build --profile chk -p vcheck && CARGO_NET_OFFLINE=true cargo build -p c05worker && CARGO_NET_OFFLINE=true cargo build --release -p c05worker && CARGO_NET_OFFLINE=true cargo build --profile chk -p vcheck --features preserve_order --target-dir /verif/harness/target-po",
       "hooks":{"guard":"toml_verif","enable":"none needed: every observation point is public API; checks build /repo through path dependencies (RUSTFLAGS --cfg toml_verif would enable hooks if any existed)","baseline_off_cmd":"cd /repo && cargo test --workspace --no-fail-fast --offline","source_commits":[],"add_only":True},
       "engines":[{"name":"vcheck","path":"/verif/harness","serves_properties":sorted(CHECKS),"kind_free_text":"Rust harness: proptest TestRunner over choice tapes (generation + shrinking), exhaustive small-scope enumerators, model-based op interpreters, cargo-fuzz targets; oracles: independent reference decoder, by-construction renderer, round-trips, differentials"}],
       "checks":checks,
